@@ -777,6 +777,9 @@ subroutine solve_t(initial_values, t, min_iter, max_iter, tol, offset, convergen
      return
   end if
 
+  ! No errors so far (and none at all, should `max_iter` be zero)
+  error_code = 0
+
   ! Solve
   do iteration = 1, max_iter
 
